@@ -2,6 +2,10 @@
 
 prove -> build -> corpus -> correspond (file bytes, byte for byte, against the extracted Coq model) -> oracle
 (independent Python BigTIFF reader stating the property over the implementation's files) -> minimised replay.
+
+The OS level is scripted: the harness is linked with -Wl,--wrap=pwrite, and a case may carry a short-write script
+("sw": one answer per pwrite call, see gen_script) that the harness's pwrite and the model's pwrite oracle
+(coq/TiffSw.v: file_write as the write-all loop of linux/platform.c) both follow.  pwrite never fails here (C16's).
 """
 import binascii
 import copy
@@ -103,6 +107,99 @@ def gen_frame(rng, ids, aligned, tier):
     return {"w": w, "h": h, "type": ty, "fid": fid, "hwid": hwid, "tshw": tshw, "tsacq": tsacq, "data": hx(data)}
 
 
+# ----------------------------------------------------------------------------- short-write scripts
+# One entry per pwrite call of the case, in call order; calls beyond the script transfer everything.
+#   f = everything | b<c> = at most c bytes (b0 = the zero-length result) | m<c> = all but c (at least 1) |
+#   h = half, rounded up | p<k> = k/256 of the request (at least 1)
+# The same entry means the same count in harness/h_tiff.cpp:sw_count and coq/TiffSw.v:sw_count.
+ZERO_BUDGET = 2          # linux/platform.c:file_write gives up at its third zero-length result
+
+
+def budget_ok(script):
+    """coq/TiffSw.v:budget_ok 0 -- never more than ZERO_BUDGET zero answers between two 'f' answers: no file_write
+    can then see a third zero-length result, however the calls are grouped into file_write calls."""
+    z = 0
+    for e in script:
+        if e == "f":
+            z = 0
+        elif e == "b0":
+            z += 1
+            if z > ZERO_BUDGET:
+                return False
+    return True
+
+
+def repair_budget(script):
+    out, z = [], 0
+    for e in script:
+        if e == "f":
+            z = 0
+        elif e == "b0":
+            if z + 1 > ZERO_BUDGET:
+                e, z = "f", 0
+            else:
+                z += 1
+        out.append(e)
+    return out
+
+
+def short_entry(rng):
+    r = rng.random()
+    if r < 0.22:
+        return "b1"
+    if r < 0.34:
+        return "b%d" % rng.choice([2, 3, 7, 8, 9, 15, 16, 17, 335, 336])
+    if r < 0.46:
+        return "b%d" % rng.randint(1, 600)
+    if r < 0.52:
+        return "b%d" % rng.choice([1000, 4096, 5000])
+    if r < 0.68:
+        return "m1"
+    if r < 0.76:
+        return "m%d" % rng.randint(2, 64)
+    if r < 0.88:
+        return "h"
+    return "p%d" % rng.randint(1, 255)
+
+
+def gen_script(rng, case):
+    """(mode, script) for a case; every script satisfies budget_ok."""
+    calls = 0
+    for cyc in case["cycles"]:
+        calls += 2 + (1 if case["kind"] == "json" else 0) + 3 * sum(len(p) for p in cyc["packets"])
+    mode = rng.choice(["sparse", "sparse", "sparse", "one", "one", "dense", "dribble", "dribble", "zeros", "zeros", "zeros"])
+    n = max(1, int(calls * rng.choice([0.5, 1.0, 1.5, 2.5]))) + rng.randint(0, 6)
+    if mode == "one":
+        # a single short count somewhere (the rest of that buffer must land right behind it)
+        sc = ["f"] * rng.randrange(calls) + [short_entry(rng)]
+    elif mode == "sparse":
+        p = rng.choice([0.1, 0.25, 0.5])
+        sc = [short_entry(rng) if rng.random() < p else "f" for _ in range(n)]
+    elif mode == "dense":
+        sc = [short_entry(rng) for _ in range(2 * n)]
+    elif mode == "dribble":
+        # one byte at a time over a stretch of calls
+        sc = ["f"] * rng.randrange(calls) + ["b1"] * rng.choice([3, 8, 20, 60, 200])
+    else:
+        # zero-length results, up to the number file_write tolerates, alone and mixed with short counts
+        sc = []
+        while len(sc) < n:
+            r = rng.random()
+            if r < 0.45:
+                sc.append("f")
+            elif r < 0.6:
+                sc.append(short_entry(rng))
+            else:
+                sc += rng.choice([["b0"], ["b0", "b0"], ["b0", "b1", "b0"], ["b0", "h", "b0"], ["b1", "b0", "m1", "b0"],
+                                  ["b0", "b0", "b1", "b1"], ["m1", "b0"], ["b0", "p128", "b0", "m1"]])
+                if rng.random() < 0.7:
+                    sc.append("f")
+    sc = repair_budget(sc)
+    while sc and sc[-1] == "f":
+        sc.pop()
+    return mode, sc
+
+
 def compositions(n, rng):
     """a random split of n frames into packets"""
     out = []
@@ -114,7 +211,7 @@ def compositions(n, rng):
     return out
 
 
-def gen_case(rng, tier, force=None):
+def gen_case(rng, tier, force=None, sw=None):
     kind = force or rng.choice(["tiff", "tiff", "json"])
     ncyc = rng.choice([1, 1, 1, 2, 2, 3])
     names = ["a", "b", "out"]
@@ -157,6 +254,10 @@ def gen_case(rng, tier, force=None):
                 case["pre"].append({"path": base + "/metadata.json", "data": hx(rng.choice([b'{"old":"' + b"x" * n + b'"}', rng.randbytes(n)]))})
             if rng.random() < 0.5:
                 case["pre"].append({"path": base + "/data.tif", "data": hx(rng.randbytes(n))})
+    if sw is None:
+        sw = rng.random() < 0.5
+    if sw:
+        case["sw_mode"], case["sw"] = gen_script(rng, case)
     return case
 
 
@@ -195,6 +296,8 @@ def case_text(case, cid, d, fixes=None):
     lines = ["case %s" % cid, "dev %s" % case["kind"]]
     if fixes is not None:
         lines.append("fix %d %d %d" % fixes)
+    if case.get("sw"):
+        lines.append("sw " + " ".join(case["sw"]))
     for f in case.get("pre", []):
         lines.append("file %s %s" % (hx(f["path"].replace("$D", d).encode()), f["data"] or "-"))
     for k, cyc in enumerate(case["cycles"]):
@@ -257,7 +360,7 @@ def build(ctx):
     orac = ctx.oracle_build(name="vorac")
     here = os.path.join(ctx.famdir, "harness")
     impl = ctx.cc([os.path.join(here, "h_tiff.cpp")] + SOURCES, "h_tiff",
-                  flags=["-I" + os.path.join(vlib.REPO, i) for i in INCLUDES])
+                  flags=["-I" + os.path.join(vlib.REPO, i) for i in INCLUDES] + ["-Wl,--wrap=pwrite,--wrap=pwrite64"])
     return orac, impl
 
 
@@ -284,7 +387,15 @@ def model_files(mlines):
 
 
 def op_lines(lines):
-    return [l for l in lines if l.split(" ")[0] in ("set", "start", "append", "stop", "endcase", "BADLINE", "BADFRAME", "NODEVICE")]
+    return [l for l in lines if l.split(" ")[0] in ("set", "start", "append", "stop", "endcase", "BADLINE", "BADFRAME", "NODEVICE", "iofail")]
+
+
+def pwrite_log(lines):
+    """[(offset, requested, returned)] from the 'pwrites' line, None if there is none"""
+    for l in lines:
+        if l.startswith("pwrites "):
+            return [tuple(int(x) for x in c.split(":")) for c in l.split(" ")[2:]]
+    return None
 
 
 def cycle_ran(ilines_ops, case):
@@ -344,6 +455,12 @@ def compare_case(case, d, ilines, mlines):
     if io != mo:
         k = next((i for i in range(min(len(io), len(mo))) if io[i] != mo[i]), min(len(io), len(mo)))
         diffs.append(("device states / status codes differ", {"op_index": k, "impl": io[k:k + 1], "model": mo[k:k + 1]}))
+    ip, mp = pwrite_log(ilines), pwrite_log(mlines)
+    if ip != mp:
+        k = next((i for i in range(min(len(ip or []), len(mp or []))) if ip[i] != mp[i]), min(len(ip or []), len(mp or [])))
+        diffs.append(("pwrite calls (offset, requested, returned) differ from the model's file_write loop",
+                      {"call_index": k, "impl": (ip or [])[max(0, k - 1):k + 2], "model": (mp or [])[max(0, k - 1):k + 2],
+                       "impl_calls": len(ip or []), "model_calls": len(mp or [])}))
     files, _ = model_files(mlines)
     want = {}
     for (tag, path), content in files.items():
@@ -425,6 +542,29 @@ def run_single(impl, case, d):
 def simplify_candidates(case):
     """smaller variants of a case, most aggressive first"""
     n = len(case["cycles"])
+    sw = case.get("sw")
+    if sw:
+        def with_script(sc):
+            c = copy.deepcopy(case)
+            sc = list(sc)
+            while sc and sc[-1] == "f":
+                sc.pop()
+            if sc:
+                c["sw"] = sc
+            else:
+                c.pop("sw", None)
+                c.pop("sw_mode", None)
+            return c
+        yield with_script([])                                  # is the script needed at all?
+        if len(sw) > 1:
+            yield with_script(sw[:len(sw) // 2])
+            yield with_script(["f"] * (len(sw) // 2) + sw[len(sw) // 2:])
+        for i, e in enumerate(sw):
+            if e != "f":
+                yield with_script(sw[:i] + ["f"] + sw[i + 1:])
+        for i, e in enumerate(sw):
+            if e not in ("f", "b1"):
+                yield with_script(sw[:i] + ["b1"] + sw[i + 1:])
     for i in range(len(case.get("pre", []))):
         c = copy.deepcopy(case)
         del c["pre"][i]
@@ -484,7 +624,7 @@ def simplify_candidates(case):
             yield c
 
 
-def minimise(ctx, impl, case, key, budget=120):
+def minimise(ctx, impl, case, key, budget=160):
     d = os.path.join(ctx.bdir, "shrink")
 
     def fails(c):
@@ -521,17 +661,23 @@ def replay_of(ctx, impl, case, key):
             c = impl_file_for(case, k, cyc, d, path)
             if c is not None and len(c) <= 4096:
                 dumps["cycle%d:%s" % (k, os.path.basename(path))] = hx(c)
+    log = pwrite_log(lines) or []
     return {"case": case,
+            "short_write_script": case.get("sw", []),
+            "pwrite_calls": ["call %d: pwrite(offset=%d, count=%d) returned %d%s" % (i, o, rq, rt, "" if rt == rq else "  <- short")
+                             for i, (o, rq, rt) in enumerate(log)][:200],
             "protocol": [l if len(l) < 400 else l[:400] + "..." for l in case_text(case, 0, "$D")],
             "impl_output": lines, "stderr": (e or "")[-2000:], "oracle": msgs, "files_hex": dumps,
             "how": "python3 tools/check.py --property C15 --replay <this file>   (re-runs `case` on .build/C15/h_tiff, built from the "
-                   "repo under test, and applies the independent reader fam/tiff/tools/tiffparse.py; $D is a scratch directory)"}
+                   "repo under test, and applies the independent reader fam/tiff/tools/tiffparse.py; $D is a scratch directory; "
+                   "`short_write_script` = case.sw = what the harness's pwrite (linked with -Wl,--wrap=pwrite) answers to the "
+                   "i-th pwrite call: f everything, b<c> at most c bytes, b0 nothing, m<c> all but c, h half, p<k> k/256)"}
 
 
 # ----------------------------------------------------------------------------- folding results
 def describe(case):
     cyc = case["cycles"]
-    return {"kind": case["kind"], "preexisting": [(f["path"], len(f["data"]) // 2) for f in case.get("pre", [])], "cycles": [{"sets": [{"uri": s["uri"], "md": (dec_md(s["md"]) or b"")[:40].decode("latin1") if s["md"] is not None else None,
+    return {"kind": case["kind"], "short_writes": " ".join(case.get("sw", [])[:60]) or None, "preexisting": [(f["path"], len(f["data"]) // 2) for f in case.get("pre", [])], "cycles": [{"sets": [{"uri": s["uri"], "md": (dec_md(s["md"]) or b"")[:40].decode("latin1") if s["md"] is not None else None,
                                                          "scale": [s["sx"], s["sy"]]} for s in c["sets"]],
                                               "packets": [["%dx%d %s +%dB id=%d" % (f["w"], f["h"], TYPE_NAME[f["type"]], len(f["data"]) // 2, f["fid"]) for f in p]
                                                           for p in c["packets"]], "stop": c["stop"]} for c in cyc]}
@@ -547,6 +693,15 @@ def fold(ctx, impl, orac, cases, results, origin):
         ctx.count("kind:" + case["kind"])
         ctx.count("cycles:%d" % len(nfr))
         ctx.count("target-preexists:%s" % ("yes" if case.get("pre") else "no"))
+        ctx.count("short-writes:" + (case.get("sw_mode", "script") if case.get("sw") else "none"))
+        if case.get("sw") and not budget_ok(case["sw"]):
+            ctx.broken_tie("a short-write script exceeds file_write's zero-count budget (generator / corpus error: failures are C16's)",
+                           {"script": case["sw"][:80]})
+            continue
+        for o_, rq_, rt_ in pwrite_log(il) or []:
+            ctx.count("pwrite:" + ("full" if rt_ == rq_ else "zero" if rt_ == 0 else "1-byte" if rt_ == 1 else "all-but-1" if rt_ == rq_ - 1 else "short"))
+        if any(rt_ != rq_ for _, rq_, rt_ in pwrite_log(il) or []):
+            ctx.count("cases-with-a-short-pwrite")
         for c in case["cycles"]:
             n = sum(len(p) for p in c["packets"])
             ctx.count("frames:" + ("0" if n == 0 else "1" if n == 1 else "2-4" if n <= 4 else "5-12"))
@@ -665,6 +820,27 @@ def grouping_cases(rng, tier):
     return out
 
 
+def single_short_write_cases(rng, tier):
+    """one short count (1 byte / all but 1 / half) at EACH pwrite call index of a small acquisition, both device kinds:
+    header, metadata.json, every directory, strip, description and the terminating link are each cut short once"""
+    out = []
+    nfr = 2 if tier == "quick" else 4
+    for kind in ("tiff", "json"):
+        ids = {"mode": "seq", "next": 0, "hwoff": 0}
+        frames = [gen_frame(rng, ids, aligned=True, tier="quick") for _ in range(nfr)]
+        base = {"kind": kind, "pre": [],
+                "cycles": [{"sets": [{"uri": "$D/s" + (".tif" if kind == "tiff" else ".dir"), "md": hx(b'{"short":"writes"}'), "sx": 1.0, "sy": 0.5}],
+                            "packets": [[f] for f in frames], "stop": True}]}
+        calls = 2 + (1 if kind == "json" else 0) + 3 * nfr
+        for i in range(calls):
+            for e in ("b1", "m1", "h", "b0"):
+                c = copy.deepcopy(base)
+                c["sw"] = ["f"] * i + ([e] if e != "b0" else ["b0", "b1", "b0"])
+                c["sw_mode"] = "single"
+                out.append(c)
+    return out
+
+
 # ----------------------------------------------------------------------------- entry point
 def run(ctx):
     ctx.coq_prove(["Properties_C15"])
@@ -675,9 +851,15 @@ def run(ctx):
                 "quotes and braces in strings / non-JSON brace text; pixel scales incl. 0, fractional, 10000*x overflowing 32 bits), N = 0..12 frames "
                 "(all 8 sample types, shapes 1x1..33x33 and a few large/odd ones, payload exact or padded to 8, ids sequential or at decimal/binary edges up to "
                 "2^64-1) split into random packets (plus every grouping of 4 (quick) / 6 (thorough) frames), last cycle finalised by stop or by destroy. "
+                "Half of the cases carry a short-write script for the OS-level pwrite (harness linked with --wrap=pwrite; one answer per call: "
+                "everything / at most c bytes incl. 1 / all but c / half / k/256 / the zero-length result up to the two file_write tolerates; modes: one "
+                "short count, sparse, dense, one-byte dribble, zero groups; never an error), plus one short count at each call index of a small "
+                "acquisition; the model's file_write is the write-all loop over the same script and the pwrite logs (offset, requested, returned) "
+                "are compared too. "
                 "Compared byte for byte with the extracted model: every file after every cycle, HAL status and device state after every call. "
                 "Non-trivial = some cycle with >= 2 frames or >= 2 cycles; distinct = distinct case JSON.")
-    ctx.assumptions = ["open/pwrite/close/mkdir succeed and the target directory is writable (I/O failures are C16's)",
+    ctx.assumptions = ["open/pwrite/close/mkdir succeed and the target directory is writable (I/O failures are C16's); pwrite may return "
+                       "any short count, and the zero-length result at most twice between two complete transfers (file_write gives up at the third)",
                        "the file is smaller than 2^64 bytes; pixel scales are in [0, 2^32) (the cast to uint32_t is undefined outside)",
                        "metadata and URI strings contain no interior NUL and nbytes counts the terminating NUL",
                        "frames are contiguous single-plane images (the writer ignores strides, channels and planes)",
@@ -705,6 +887,7 @@ def run(ctx):
 
     n = 6000 if thorough else 480
     cases = [("g%d" % i, c) for i, c in enumerate(grouping_cases(ctx.rng, ctx.tier))]
+    cases += [("s%d" % i, c) for i, c in enumerate(single_short_write_cases(ctx.rng, ctx.tier))]
     cases += [(i, gen_case(ctx.rng, ctx.tier)) for i in range(n)]
     for _, c in cases[len(cases) - n:len(cases) - n + 3]:
         ctx.sample(describe(c))
